@@ -9,11 +9,6 @@ pub fn run(rng: &mut Rng, n: usize, out: &mut Out, which: &str) {
     let mut st = ImplState::new();
     let g = Gen::new();
     out.run(&mut st, "impl.viafen on");
-    if which == "c17" {
-        // searches on the shared searcher are tied to the model incl. the table digest: both sides must use the same keys
-        let z = crate::zobrist::ZobristTable::new();
-        out.run(&mut st, &format!("s.new {}", crate::ops::zobrist_keys_text(&z)));
-    }
     // corpus first (every hand-made tricky position, then positions after each legal move from them)
     let mut queue: Vec<crate::board::Board> = Vec::new();
     for fen in posgen::CORPUS { queue.push(crate::board::Board::new(fen)); }
@@ -52,7 +47,8 @@ pub fn run(rng: &mut Rng, n: usize, out: &mut Out, which: &str) {
             // ... and now and then a COMPLETED shallow search of this very position: what it leaves in the table (a best move,
             // usually a quiet one) must not leak into the selection either
             if i % 4 == 1 && !ms.is_empty() && crate::csearch::nodes_capped(&b, 2, 4000) < 4000 {
-                out.run(&mut st, &format!("s.go {} {} none", bt, 1 + (i % 8) / 4));
+                // (qstress with a node budget far above the measured tree size = a completed search on the observed searcher)
+                out.run(&mut st, &format!("qstress {} {} 100000000", bt, 1 + (i % 8) / 4));
                 out.count("completed_searches_before_observation");
             }
             out.run(&mut st, &format!("qset {}", bt));
